@@ -1,5 +1,6 @@
 import USimModel.Prim.KernelModel
 import USimModel.Gen.Kernel
+import USimModel.Lemmas.PushBucket
 /-!
 # C01 - virtual time is monotone; timed waits resume exactly at their date
 # (Layer K: for every behaviour of the activities that respects `schedule`'s assertion)
@@ -8,61 +9,6 @@ The same theorems serve C02 (FIFO order, backends) and C15 (quiescence).
 -/
 namespace USim.Prim.Kernel
 open USim.Machine
-
-theorem beq_rat (a b : Rat) : (TimeLike.beq a b) = (a == b) := rfl
-theorem lt_rat (a b : Rat) : (TimeLike.lt a b) = decide (a < b) := rfl
-
-theorem mem_keys_pushBucket (key : Rat) (a : Activation) (q : List (Rat × List Activation)) (t : Rat) :
-    t ∈ keys (pushBucket key a q) ↔ t = key ∨ t ∈ keys q := by
-  induction q with
-  | nil => simp [pushBucket, keys]
-  | cons p ps ih =>
-    obtain ⟨k, b⟩ := p
-    simp only [pushBucket, beq_rat, lt_rat]
-    split
-    · rename_i h
-      simp only [beq_iff_eq] at h
-      simp [keys, h]
-    · split
-      · simp [keys]
-      · simp only [keys, List.map_cons, List.mem_cons] at ih ⊢
-        rw [ih]
-        constructor
-        · rintro (h | h | h) <;> simp [h]
-        · rintro (h | h | h) <;> simp [h]
-
-theorem pushBucket_sorted (key : Rat) (a : Activation) (q : List (Rat × List Activation))
-    (h : (keys q).Pairwise (· < ·)) : (keys (pushBucket key a q)).Pairwise (· < ·) := by
-  induction q with
-  | nil => simp [pushBucket, keys]
-  | cons p ps ih =>
-    obtain ⟨k, b⟩ := p
-    simp only [keys, List.map_cons, List.pairwise_cons] at h
-    simp only [pushBucket, beq_rat, lt_rat]
-    split
-    · simpa [keys] using h
-    · rename_i hne
-      split
-      · rename_i hlt
-        simp only [decide_eq_true_eq] at hlt
-        simp only [keys, List.map_cons, List.pairwise_cons]
-        refine ⟨?_, h⟩
-        intro t ht
-        simp only [List.mem_cons] at ht
-        rcases ht with rfl | ht
-        · exact hlt
-        · have := h.1 t ht; grind
-      · rename_i hge
-        simp only [decide_eq_true_eq, Rat.not_lt] at hge
-        simp only [beq_iff_eq] at hne
-        have hlt : k < key := by grind
-        have := ih h.2
-        simp only [keys, List.map_cons, List.pairwise_cons]
-        refine ⟨?_, this⟩
-        intro t ht
-        rcases (mem_keys_pushBucket key a ps t).mp ht with rfl | ht
-        · exact hlt
-        · exact h.1 t ht
 
 /-- a `schedule` command whose assertion holds keeps the wait queue sorted and in the future -/
 theorem apply_ok (k : K) (c : Cmd) (h : QueueOk k) (hc : c.ok k) : QueueOk (k.apply c) ∧ (k.apply c).time = k.time := by
